@@ -124,7 +124,15 @@ func (t *Object) GetField(name string) *FieldDef {
 
 // Validate a type.
 func (t *Object) Validate(root *Root) (errs []error) {
-	for _, it := range t.Interfaces {
+	for i, it := range t.Interfaces {
+		// Extend() refuses an interface that is already there, the
+		// definition must not have one twice either.
+		for _, it2 := range t.Interfaces[:i] {
+			if it.Name() == it2.Name() {
+				errs = append(errs, fmt.Errorf("%w, interface %s is repeated on %s at %d:%d",
+					ErrValidation, it.Name(), t.Name(), t.line, t.col))
+			}
+		}
 		if i, ok := it.(*Interface); ok {
 			errs = append(errs, t.validateInterface(i)...)
 		} else {
